@@ -2,8 +2,22 @@
   Suites built from the Lean reference primitives, with snow's wrapper
   conventions (`resolvers/default.rs`, `resolvers/ring.rs`): nonce layouts,
   key handling, what a decrypt leaves in the output buffer.
+
+  The wrappers are written so that the *length and shape* laws of `Suite` hold by construction,
+  whatever the reference bodies compute (`Theorems/C18Real.lean`):
+   * hashes and DH outputs go through `Bytes.fit n` (truncate / zero-pad to exactly `n` bytes:
+     the fixed-size output array of the Rust trait methods); on a correct reference it is the
+     identity;
+   * the AEADs are assembled with the generic stream+MAC construction `C18.smEnc` / `C18.smDec`
+     from the reference *keystream* (the reference cipher applied to zeros: ChaCha20 with block
+     counter 1, GCM's GCTR) and the reference *tag* function over `(ad, ciphertext)`. This is
+     what RFC 8439 section 2.8 and SP 800-38D section 7 say, and it computes the same bytes as
+     the references' own `aeadEncrypt`/`aeadDecrypt`/`gcmEncrypt`/`gcmDecrypt` (known-answer
+     tests in `selfTest` below, and the byte-for-byte comparison with the Rust crates on every
+     check run).
 -/
 import SnowVerif.Suite
+import SnowVerif.Crypto.StreamMac
 import SnowVerif.Crypto.Sha2
 import SnowVerif.Crypto.Blake2
 import SnowVerif.Crypto.ChaChaPoly
@@ -44,6 +58,51 @@ structure CipherImpl where
   enc : Bytes → UInt64 → Bytes → Bytes → Bytes
   dec : Bytes → UInt64 → Bytes → Bytes → Option Bytes
 
+/-! ### Keystream and tag functions of the real AEADs (from the reference implementations)
+
+  `ks key n len`: `len` keystream bytes = the reference stream cipher applied to `len` zero bytes.
+  `mac key n ad ct`: the 16-byte reference tag over `(ad, ct)`.
+  The `fit`s are the identity on the references (their outputs have exactly that length); they
+  make the length laws independent of the reference bodies. -/
+
+/-- ChaCha20 keystream from block counter 1 (RFC 8439 section 2.8). The reference reads missing
+    key bytes as 0 and ignores surplus ones (snow always passes a `[u8; 32]`). -/
+def ksChaCha (key : Bytes) (n : UInt64) (len : Nat) : Bytes :=
+  fit len (Crypto.ChaChaPoly.chacha20Xor key (nonceChaCha n) 1 (zeros len))
+
+/-- Poly1305 tag under the one-time key of block 0, over `ad ‖ pad ‖ ct ‖ pad ‖ lengths`. -/
+def macChaCha (key : Bytes) (n : UInt64) (ad ct : Bytes) : Bytes :=
+  open Crypto.ChaChaPoly in
+  fit 16 (toList (aeadTagBA (ofList key) (ofList (nonceChaCha n)) (ofList ad) (ofList ct)))
+
+/-- XChaCha20: subkey = HChaCha20(key, nonce[0..16]). -/
+def xSubkey (key : Bytes) (n : UInt64) : ByteArray :=
+  open Crypto.ChaChaPoly in
+  hchacha20BA (ofList key) ((ofList (nonceXChaCha n)).extract 0 16)
+
+/-- XChaCha20: the inner 12-byte nonce `00 00 00 00 ‖ nonce[16..24]`. -/
+def xInnerNonce (n : UInt64) : ByteArray :=
+  Crypto.ChaChaPoly.xnonce (Crypto.ChaChaPoly.ofList (nonceXChaCha n))
+
+def ksXChaCha (key : Bytes) (n : UInt64) (len : Nat) : Bytes :=
+  open Crypto.ChaChaPoly in
+  fit len (toList (chacha20XorBA (xSubkey key n) (xInnerNonce n) 1 (ofList (zeros len))))
+
+def macXChaCha (key : Bytes) (n : UInt64) (ad ct : Bytes) : Bytes :=
+  open Crypto.ChaChaPoly in
+  fit 16 (toList (aeadTagBA (xSubkey key n) (xInnerNonce n) (ofList ad) (ofList ct)))
+
+/-- AES-256 round keys. The key is a `[u8; 32]` in snow; `fit 32` is that array. -/
+def gcmRoundKeys (key : Bytes) : ByteArray := Crypto.AesGcm.expandKey ⟨(fit 32 key).toArray⟩
+
+/-- GCTR keystream from counter block `IV ‖ 2` (SP 800-38D section 7.1). -/
+def ksGcm (key : Bytes) (n : UInt64) (len : Nat) : Bytes :=
+  fit len (Crypto.AesGcm.gctr (gcmRoundKeys key) ⟨(nonceGcm n).toArray⟩ ⟨(zeros len).toArray⟩).data.toList
+
+/-- `GHASH_H(ad, ct) xor E_K(IV ‖ 1)`. -/
+def macGcm (key : Bytes) (n : UInt64) (ad ct : Bytes) : Bytes :=
+  fit 16 (Crypto.AesGcm.computeTag (gcmRoundKeys key) ⟨(nonceGcm n).toArray⟩ ⟨ad.toArray⟩ ⟨ct.toArray⟩).data.toList
+
 /-- `sel`: 0 ChaChaPoly, 1 XChaChaPoly, 2 AESGCM. -/
 def cipherImpl (b : Backend) (sel : Nat) : CipherImpl :=
   match b with
@@ -52,15 +111,9 @@ def cipherImpl (b : Backend) (sel : Nat) : CipherImpl :=
     { name := s.cipherName, enc := s.enc, dec := s.dec }
   | _ =>
     match sel with
-    | 0 => { name := "ChaChaPoly"
-             enc := fun k n ad p => Crypto.ChaChaPoly.aeadEncrypt k (nonceChaCha n) ad p
-             dec := fun k n ad c => Crypto.ChaChaPoly.aeadDecrypt k (nonceChaCha n) ad c }
-    | 1 => { name := "XChaChaPoly"
-             enc := fun k n ad p => Crypto.ChaChaPoly.xaeadEncrypt k (nonceXChaCha n) ad p
-             dec := fun k n ad c => Crypto.ChaChaPoly.xaeadDecrypt k (nonceXChaCha n) ad c }
-    | _ => { name := "AESGCM"
-             enc := fun k n ad p => Crypto.AesGcm.gcmEncrypt k (nonceGcm n) ad p
-             dec := fun k n ad c => Crypto.AesGcm.gcmDecrypt k (nonceGcm n) ad c }
+    | 0 => { name := "ChaChaPoly", enc := C18.smEnc ksChaCha macChaCha, dec := C18.smDec ksChaCha macChaCha }
+    | 1 => { name := "XChaChaPoly", enc := C18.smEnc ksXChaCha macXChaCha, dec := C18.smDec ksXChaCha macXChaCha }
+    | _ => { name := "AESGCM", enc := C18.smEnc ksGcm macGcm, dec := C18.smDec ksGcm macGcm }
 
 structure HashImpl where
   name : String
@@ -76,10 +129,10 @@ def hashImpl (b : Backend) (sel : Nat) : HashImpl :=
     { name := s.hashName, hashLen := s.hashLen, blockLen := s.blockLen, hash := s.hash }
   | _ =>
     match sel with
-    | 0 => { name := "SHA256", hashLen := 32, blockLen := 64, hash := Crypto.Sha2.sha256 }
-    | 1 => { name := "SHA512", hashLen := 64, blockLen := 128, hash := Crypto.Sha2.sha512 }
-    | 2 => { name := "BLAKE2s", hashLen := 32, blockLen := 64, hash := Crypto.Blake2.blake2s }
-    | _ => { name := "BLAKE2b", hashLen := 64, blockLen := 128, hash := Crypto.Blake2.blake2b }
+    | 0 => { name := "SHA256", hashLen := 32, blockLen := 64, hash := fun d => fit 32 (Crypto.Sha2.sha256 d) }
+    | 1 => { name := "SHA512", hashLen := 64, blockLen := 128, hash := fun d => fit 64 (Crypto.Sha2.sha512 d) }
+    | 2 => { name := "BLAKE2s", hashLen := 32, blockLen := 64, hash := fun d => fit 32 (Crypto.Blake2.blake2s d) }
+    | _ => { name := "BLAKE2b", hashLen := 64, blockLen := 128, hash := fun d => fit 64 (Crypto.Blake2.blake2b d) }
 
 structure DhImpl where
   name : String
@@ -96,13 +149,13 @@ def dhImpl (b : Backend) (sel : Nat) : DhImpl :=
   | .default, 0 =>
     { name := "25519", pubLen := 32, privLen := 32, dhLen := 32
       validPriv := fun _ => true
-      pubOf := fun k => Crypto.Dh.x25519Base (fit 32 k)
-      dh := fun k p => some (Crypto.Dh.x25519 (fit 32 k) (p.take 32)) }
+      pubOf := fun k => fit 32 (Crypto.Dh.x25519Base (fit 32 k))
+      dh := fun k p => some (fit 32 (Crypto.Dh.x25519 (fit 32 k) (p.take 32))) }
   | .default, 2 =>
     { name := "P256", pubLen := 65, privLen := 32, dhLen := 32
       validPriv := fun k => Crypto.Dh.p256ValidScalar (fit 32 k)
-      pubOf := fun k => Crypto.Dh.p256Base (fit 32 k)
-      dh := fun k p => Crypto.Dh.p256Dh (fit 32 k) p }
+      pubOf := fun k => fit 65 (Crypto.Dh.p256Base (fit 32 k))
+      dh := fun k p => (Crypto.Dh.p256Dh (fit 32 k) p).map (fit 32) }
   | _, _ =>
     let s := Toy.suite sel 0 0
     { name := s.dhName, pubLen := s.pubLen, privLen := s.privLen, dhLen := s.dhLen
@@ -116,9 +169,40 @@ def mkSuite (d : DhImpl) (cb : Backend) (c : CipherImpl) (h : HashImpl) : Suite 
     decFailBuf := failBuf cb, decOkBuf := okBuf cb
     dhName := d.name, cipherName := c.name, hashName := h.name }
 
+/-- The stream+MAC wrappers compute the same bytes as the references' own AEAD functions:
+    plaintext lengths around the ChaCha (64) and AES (16) block boundaries, with and without AD,
+    round trip, and rejection of a flipped body byte, a flipped tag byte and a wrong AD. -/
+def wrapperSelfTest : Bool :=
+  let key : Bytes := (List.range 32).map fun i => (7 * i + 3).toUInt8
+  let lens : List Nat := [0, 1, 15, 16, 17, 63, 64, 65, 128, 200]
+  let refs : List ((Bytes → UInt64 → Bytes → Bytes → Bytes) × (Bytes → UInt64 → Bytes → Bytes → Option Bytes)) :=
+    [ (fun k n ad p => Crypto.ChaChaPoly.aeadEncrypt k (nonceChaCha n) ad p,
+       fun k n ad c => Crypto.ChaChaPoly.aeadDecrypt k (nonceChaCha n) ad c),
+      (fun k n ad p => Crypto.ChaChaPoly.xaeadEncrypt k (nonceXChaCha n) ad p,
+       fun k n ad c => Crypto.ChaChaPoly.xaeadDecrypt k (nonceXChaCha n) ad c),
+      (fun k n ad p => Crypto.AesGcm.gcmEncrypt k (nonceGcm n) ad p,
+       fun k n ad c => Crypto.AesGcm.gcmDecrypt k (nonceGcm n) ad c) ]
+  (List.range 3).all fun sel =>
+    let c := cipherImpl .default sel
+    match refs[sel]? with
+    | none => false
+    | some (renc, rdec) =>
+      lens.all fun len =>
+        let p : Bytes := (List.range len).map fun i => (i * i + 11 * i + 5).toUInt8
+        [([] : Bytes), [1, 2, 3]].all fun ad =>
+          [(0 : UInt64), 0x0102030405060708].all fun n =>
+            let ct := c.enc key n ad p
+            ct == renc key n ad p
+              && c.dec key n ad ct == some p && rdec key n ad ct == some p
+              && c.dec key n ad (ct.set (ct.length - 1) (ct.getD (ct.length - 1) 0 ^^^ 1)) == none
+              && c.dec key n (9 :: ad) ct == none
+              && (len == 0 || (c.dec key n ad (ct.set 0 (ct.getD 0 0 ^^^ 0x80)) == none
+                               && rdec key n ad (ct.set 0 (ct.getD 0 0 ^^^ 0x80)) == none))
+              && c.dec key n ad (ct.take 15) == none
+
 def selfTest : Bool :=
   Crypto.Sha2.selfTest && Crypto.Blake2.selfTest && Crypto.ChaChaPoly.selfTest
-    && Crypto.AesGcm.selfTest && Crypto.Dh.selfTest
+    && Crypto.AesGcm.selfTest && Crypto.Dh.selfTest && wrapperSelfTest
 
 end Real
 end SnowVerif
